@@ -139,3 +139,13 @@ claim('C18', 'flow rule inside JsonGenerator: value / literal text must pass a J
       'Decides that every literal or value text written into the JSON output is encoded (3 known findings: none is today, so True/None/quotes yield invalid JSON).',
       'That the emitted values equal the constant initializers is not decided.',
       'DESIGN.md §3 C18')
+
+claim('C33', 'dominance rule over the structured HIR of Context::get_match_call_t',
+      'Decides that a `match` call is typed successfully only after sub_unify(scrutinee type, union of all arm pattern types) succeeded, its failure producing match_error.',
+      'Soundness of sub_unify / union and the run-time arm tests generated by the code generator are not decided.',
+      'DESIGN.md §3 C33')
+claim('C05', 'dominance rules over the pipeline functions (lower, effect check, ownership check, HIRBuilder::check, Compiler::compile*)',
+      'Decides the pipeline clause "is rejected ... and is not executed": no stage returns Ok with accumulated errors, no collected error is dropped on the way, stages are chained '
+      'with `?`, and the code generator runs only after a successful build.',
+      'That the type checker detects each definite error at every nesting depth is not decided.',
+      'DESIGN.md §3 C05')
